@@ -107,6 +107,16 @@ def run_i2c(desc, ctx):
             fin = []
             e2.update(lambda m: fin.append(1))
             return e2, fin
+        hp = MemHandler(size=64)
+        keep = I2CElement(id=0, type=0, size=64, mem_handler=hp)
+
+        def reparse(image):
+            # the library keeps one element object per memory for the whole connection: refresh it in place
+            hp.image[:] = bytes(image) + bytes(64 - len(image))
+            fin_ = []
+            keep._update_finished_cb = None
+            keep.update(lambda m: fin_.append(1))
+            return keep, fin_
         e2, fin = parse(ref)
         ok = e2.valid and fin == [1] and e2.elements.get('version') == ver and e2.elements.get('radio_channel') == ch and \
             e2.elements.get('radio_speed') == sp and fbits(e2.elements.get('pitch_trim')) == fbits(pt) and \
@@ -122,7 +132,13 @@ def run_i2c(desc, ctx):
                 img = bytearray(ref)
                 img[off] = newv
                 want = refcodec.i2c_valid(bytes(img) + bytes(64 - len(img)))
-                e3, fin3 = parse(bytes(img))
+                if rnd.random() < 0.5:
+                    g, _ = reparse(ref)
+                    if not g.valid:
+                        ctx.violate('i2c:correct-image-rejected-on-refresh', {'image': ref.hex()})
+                    e3, fin3 = reparse(bytes(img))
+                else:
+                    e3, fin3 = parse(bytes(img))
                 ctx.evals()
                 ctx.count('mon.i2c_corruptions')
                 if want is None:
@@ -173,6 +189,18 @@ def ow_case(ctx, rnd, elems, vid, pid, pins, corrupt=True):
         except Exception as e:  # noqa
             return e2, fin, e
         return e2, fin, None
+    hk = MemHandler(size=112, fill=0xFF)
+    keep = OWElement(id=1, type=1, size=112, addr='00', mem_handler=hk)
+
+    def reparse(image):
+        hk.image[:] = (bytes(image) + bytes([0xFF]) * 112)[:112]
+        fin_ = []
+        keep._update_finished_cb = None
+        try:
+            keep.update(lambda m: fin_.append(1))
+        except Exception as e:  # noqa
+            return keep, fin_, e
+        return keep, fin_, None
     e2, fin, err = parse(ref)
     want_el = {NAMES[e]: s for e, s in elems}
     ok = err is None and e2.valid and fin == [1] and e2.vid == vid and e2.pid == pid and e2.pins == pins and e2.elements == want_el
@@ -193,7 +221,13 @@ def ow_case(ctx, rnd, elems, vid, pid, pins, corrupt=True):
                 continue
             full = bytes(img) + bytes([0xFF]) * (112 - len(img))
             hok, eok, parsed = refcodec.ow_valid(full)
-            e3, fin3, err3 = parse(full)
+            if rnd.random() < 0.5:
+                g, _, gerr = reparse(ref)
+                if gerr is not None or not g.valid:
+                    ctx.violate('ow:correct-image-rejected-on-refresh', dict(info, error=repr(gerr)))
+                e3, fin3, err3 = reparse(full)
+            else:
+                e3, fin3, err3 = parse(full)
             ctx.evals()
             ctx.count('mon.ow_corruptions')
             if eok and parsed and (parsed['elements'] is None or any(e not in NAMES for e, _ in parsed['elements'])):
